@@ -17,11 +17,11 @@ use std::collections::BTreeMap;
 
 pub fn phases(tier: Tier) -> Vec<Phase> {
     let mut v = vec![
-        Phase::new("programs: kind-agnostic expressions of <=2 constructors x 26 contexts, all statement orders x 3 namings", json!({"kind":"programs","space":"agnostic","k":2})),
+        Phase::new("programs: kind-agnostic expressions of <=2 constructors x 27 contexts, all statement orders x 3 namings", json!({"kind":"programs","space":"agnostic","k":2})),
         Phase::new("programs: fragments F5 (scoping) and F6 (recursion, 2 declarations), all statement orders x 3 namings", json!({"kind":"programs","space":"frags"})),
     ];
     if tier == Tier::Thorough {
-        v.push(Phase::new("programs: kind-agnostic expressions of 3 constructors x 26 contexts, all statement orders x 3 namings", json!({"kind":"programs","space":"agnostic","k":3})));
+        v.push(Phase::new("programs: kind-agnostic expressions of 3 constructors x 27 contexts, all statement orders x 3 namings", json!({"kind":"programs","space":"agnostic","k":3})));
     }
     v
 }
